@@ -3,11 +3,16 @@ use alloc::vec::Vec;
 use bytes::Bytes;
 use futures_util::{StreamExt, pin_mut};
 use tokio::sync::mpsc::Sender;
-use tracing::error;
+use tracing::debug;
 
 use crate::base::iana::OptRcode;
 use crate::base::{Name, Rtype};
 use crate::zonetree::{SharedRrset, StoredName, ZoneDiff, ZoneDiffItem};
+
+//------------ BatcherGone -----------------------------------------------------
+
+/// The receiving end of the channel to the batching responder was dropped.
+struct BatcherGone;
 
 //------------ DiffFunneler ----------------------------------------------------
 
@@ -67,10 +72,11 @@ where
             .send((self.qname.clone(), self.zone_soa_rrset.clone()))
             .await
         {
-            error!(
-                "Internal error: Failed to send initial IXFR SOA to batcher: {err}"
-            );
-            return Err(OptRcode::SERVFAIL);
+            // The batching responder is gone: it has already answered (with
+            // the single SOA that tells a UDP client to retry over TCP, or
+            // with its own error). There is nothing for us to add.
+            debug!("Stopping IXFR diff walk, batcher is gone: {err}");
+            return Ok(());
         }
 
         let qname = self.qname.clone();
@@ -85,23 +91,31 @@ where
 
             let removed_soa =
                 diff.get_removed(qname.clone(), Rtype::SOA).await.unwrap(); // The diff MUST have a SOA record
-            Self::send_diff_section(
+            if Self::send_diff_section(
                 &qname,
                 &self.batcher_tx,
                 removed_soa,
                 diff.removed(),
             )
-            .await?;
+            .await
+            .is_err()
+            {
+                return Ok(());
+            }
 
             let added_soa =
                 diff.get_added(qname.clone(), Rtype::SOA).await.unwrap(); // The diff MUST have a SOA record
-            Self::send_diff_section(
+            if Self::send_diff_section(
                 &qname,
                 &self.batcher_tx,
                 added_soa,
                 diff.added(),
             )
-            .await?;
+            .await
+            .is_err()
+            {
+                return Ok(());
+            }
         }
 
         if let Err(err) = self
@@ -109,10 +123,8 @@ where
             .send((qname.clone(), self.zone_soa_rrset))
             .await
         {
-            error!(
-                "Internal error: Failed to send final IXFR SOA to batcher: {err}"
-            );
-            return Err(OptRcode::SERVFAIL);
+            debug!("Stopping IXFR diff walk, batcher is gone: {err}");
+            return Ok(());
         }
 
         Ok(())
@@ -123,11 +135,11 @@ where
         batcher_tx: &Sender<(Name<Bytes>, SharedRrset)>,
         soa: &SharedRrset,
         diff_stream: <Diff as ZoneDiff>::Stream<'_>,
-    ) -> Result<(), OptRcode> {
+    ) -> Result<(), BatcherGone> {
         if let Err(err) = batcher_tx.send((qname.clone(), soa.clone())).await
         {
-            error!("Internal error: Failed to send SOA to batcher: {err}");
-            return Err(OptRcode::SERVFAIL);
+            debug!("Stopping IXFR diff walk, batcher is gone: {err}");
+            return Err(BatcherGone);
         }
 
         pin_mut!(diff_stream);
@@ -139,10 +151,8 @@ where
                 if let Err(err) =
                     batcher_tx.send((owner.clone(), rrset.clone())).await
                 {
-                    error!(
-                        "Internal error: Failed to send RRSET to batcher: {err}"
-                    );
-                    return Err(OptRcode::SERVFAIL);
+                    debug!("Stopping IXFR diff walk, batcher is gone: {err}");
+                    return Err(BatcherGone);
                 }
             }
         }
